@@ -764,6 +764,30 @@ def bracket_case(part: Part, setting: tuple, name: str) -> None:
             part.add("transitions")
             part.add("traces_validated_against_impl")
             variants.append((f"same-named study in another storage (trial ids shifted by {off})", ids(p3, sb)))
+        # one pruner object serving a second, differently named study (e.g. a pruner built once and
+        # passed to several create_study calls): the second study's brackets must be its own
+        other = "other-" + name
+        so = optuna.create_study(study_name=other, direction="minimize", pruner=pa, storage=optuna.storages.InMemoryStorage(),
+                                 sampler=optuna.samplers.RandomSampler(seed=0))
+        to = [so.ask() for _ in range(N)]
+        to[0].report(1.0, 0)
+        to[0].should_prune()
+        got_shared = ids(pa, so)
+        pf = mk()
+        sf = optuna.create_study(study_name=other, direction="minimize", pruner=pf, storage=optuna.storages.InMemoryStorage(),
+                                 sampler=optuna.samplers.RandomSampler(seed=0))
+        tf = [sf.ask() for _ in range(N)]
+        tf[0].report(1.0, 0)
+        tf[0].should_prune()
+        want_other = ids(pf, sf)
+        part.add("transitions", 2)
+        part.add("traces_validated_against_impl", 2)
+        part.add("evaluations", N)
+        part.add("evaluations_bracket", N)
+        if got_shared != want_other:
+            part.violation(key, dict(rep, variant="pruner object shared with a differently named study: that study's brackets",
+                                     study_name=other, expected=want_other, observed=got_shared))
+        variants.append(("same pruner after it also served a differently named study", ids(pa, sa)))
         for what, got in variants:
             part.add("evaluations", N)
             part.add("evaluations_bracket", N)
